@@ -25,4 +25,8 @@ def run(rep, tier, seed):
     rep.assumptions.append('crash model is the one stated in the property (prefix of written bytes >= last fsync, directory operations in issue order >= last fsync)')
 
 def replay(rep, path):
+    import json
+    if str(json.load(open(path)).get('kind', '')).startswith('K8-'):
+        import k8check
+        return k8check.replay(rep, path, 'C02')
     return k3check.replay_crash(rep, path)
